@@ -44,6 +44,7 @@ type frame struct {
 	phitemps         []value
 	visits           []int32
 	curInstr         ssa.Instruction
+	pc               int
 }
 
 func (fr *frame) get(key ssa.Value) value {
@@ -524,7 +525,8 @@ func runFrame(fr *frame) {
 			panic(abortPath{"unwind", fmt.Sprintf("loop bound %d at %s in %s", ex.cfg.Unwind, fr.g.pos(instrPos(fr.block.Instrs[0])), fr.fn)})
 		}
 		nonPhis := executePhis(fr)
-		for _, instr := range nonPhis {
+		for pc, instr := range nonPhis {
+			fr.pc = pc
 			ex.steps++
 			if ex.steps > ex.cfg.MaxSteps {
 				panic(abortPath{"budget", "instruction budget"})
